@@ -27,7 +27,7 @@ ASSUMPTIONS = ['failpoints sit at python-level step boundaries; a crash inside o
                'a hung pool after a dead worker is killed by the watchdog and judged on the files it left (no liveness claim)',
                'the clean run must report success, otherwise the case is inconclusive']
 MIN_NONTRIVIAL = {'quick': 50, 'thorough': 1500}
-REQUIRED_MONITORS = ['trace:steps_recorded', 'fault:fired', 'fault:raise', 'fault:exit', 'fault:kill', 'oracle:status_read', 'oracle:success_verified',
+REQUIRED_MONITORS = ['trace:steps_recorded', 'fault:fired', 'fault:raise', 'fault:exit', 'fault:kill', 'fault:persistent', 'oracle:status_read', 'oracle:success_verified',
                      'clean:success', 'pipeline:single', 'pipeline:multi', 'fault:in_worker']
 SHARD_TIMEOUT = {'quick': 1200, 'thorough': 14400}
 SUCCESS = 'Reached end. All ok!'
@@ -166,17 +166,25 @@ def run_case(case):
                 seen.add(k)
                 points.append(k)
         plan = [(p, kind) for p in points for kind in ('raise', 'exit', 'kill')]
+        # a step that stays broken: raised before the first and every later attempt (retry loops must give up loudly)
+        first_occ = {}
+        for p in points:
+            if p[3] == 'before' and (p[0], p[1]) not in first_occ:
+                first_occ[(p[0], p[1])] = p
+        persistent = [(p, 'raise_persistent') for p in first_occ.values()]
         # worker _exit leaves a hung pool (25 s watchdog each): keep only a few of those per shard
         rr = rng(case['seed'], 'C20', case['cfg'], 'plan')
         rr.shuffle(plan)
         mine = [x for i, x in enumerate(plan) if i % case['parts'] == case['part']]
+        mine_persistent = [x for i, x in enumerate(sorted(persistent)) if i % case['parts'] == case['part']]
         if case['tier'] == 'quick':
             # always keep the post-write steps (sort / index / header / merge / status), sample the rest
             key_steps = ('pysam.sort', 'pysam.index', 'pysam.merge', 'add_readgroups_to_header', 'replace_bam_header', 'write_status', 'merge_bams',
                          'shutil.rmtree', 'os.rename', 'run_tagging_tasks')
             keep = [x for x in mine if x[0][1] in key_steps]
             rest = [x for x in mine if x[0][1] not in key_steps]
-            mine = keep[:8] + rest[:2]
+            mine = keep[:7] + rest[:2]
+        mine = mine_persistent + mine
         hung_budget = (1 if case['part'] == 0 else 0) if case['tier'] == 'quick' else 4
         for (proc, stepname, occ, when), kind in mine:
             in_worker = proc != 'main'
@@ -191,7 +199,7 @@ def run_case(case):
             fired = any('fired' in e for e in trace)
             if fired:
                 acc.count('fault:fired')
-                acc.count('fault:' + kind)
+                acc.count('fault:' + kind.replace('raise_persistent', 'persistent'))
                 if in_worker:
                     acc.count('fault:in_worker')
                 acc.sigs.add(f"{case['cfg']}/{proc}/{stepname}/{occ}/{when}/{kind}")
